@@ -79,7 +79,7 @@ func isFrameableHTMLResponse(statusCode int, responseHeader http.Header) bool {
 		return false
 	}
 	for _, contentDisposition := range responseHeader[contentDispositionHeader] {
-		if strings.Contains(contentDisposition, "attachment") {
+		if strings.Contains(strings.ToLower(contentDisposition), "attachment") {
 			return false
 		}
 	}
